@@ -193,11 +193,27 @@ def run(rep: vk.Report):
     streams = {}
     hist = {}
     bounds_bad = 0
-    for i in range(n):
+    # focused corpus (every linear reduction kind under every one-node context, NumPy-typed coefficients included): each linear member is
+    # used once as an objective and once as a constraint body
+    # (contexts whose constants are not exactly representable products / quotients in binary64 are left out: the LP data are
+    #  compared EXACTLY with the rational model)
+    focused = [(g_, e_) for g_, e_ in common.corpus(rng, rep.tier, 0, focus_profile="poly", gen_flags={"numpy_coefs": True},
+                                                     exclude=["tiny", "huge", "f-1(", "f/c(", "f/C("])
+               if is_linear(e_) and e_.get_variables()]
+    for i in range(n + len(focused)):
         r = random.Random(rng.random())
         g = gen.Gen(r, profile="poly")
         try:
-            if i % 5 < 2:
+            if i >= n:
+                g, fe = focused[i - n]
+                r = g.rng
+                if (i - n) % 2 == 0:
+                    obj, cons = fe, [c for c in constraints_for(g, r) if is_linear(c.expr)]
+                else:
+                    obj = linear_expr(g)
+                    cons = [r.choice([lambda: fe <= 3, lambda: fe >= -2, lambda: fe.eq(1.5), lambda: 2 <= fe])()]
+                streams["focused"] = streams.get("focused", 0) + 1
+            elif i % 5 < 2:
                 obj, cons = vector_only(g, r)
                 cons = [c for c in cons if is_linear(c.expr)]
                 streams["vector-only"] = streams.get("vector-only", 0) + 1
